@@ -7,6 +7,7 @@ CONSTANTS
   ALPHA = "race"
   MAXLEN = 10
   GUARD = FALSE
+  AFPARK = FALSE
 INVARIANT Inv
 VIEW MCView
 CHECK_DEADLOCK FALSE
